@@ -79,6 +79,9 @@ func (vc *FuncVC) specSort(name string, pkg *types.Package) (Sort, types.Type) {
 	if s, ok := vc.w.specs.Sorts[name]; ok {
 		return Sort(s), nil
 	}
+	if strings.HasPrefix(name, "(") {
+		return Sort(name), nil // raw SMT sort
+	}
 	t := vc.w.LookupType(name, pkg)
 	if t == nil {
 		trFail("unknown type %q in spec", name)
@@ -274,6 +277,20 @@ func (e *Env) trIdent(name string) TV {
 			return TV{T: mk(SBV64, "bvadd", t, BVLit(1))}
 		}
 		return TV{T: Add(t, IntLit(1))}
+	case "$i1", "$i2", "$i3", "$i4", "$i5", "$i6":
+		// the index of an enclosing range loop, by loop ordinal
+		n := int(name[2] - '0')
+		if e.st.fr == nil || e.st.fr.fn == nil {
+			trFail("%s outside a function", name)
+		}
+		for _, li := range e.vc.loopsOf(e.st.fr.fn) {
+			if li.ordinal == n && li.rangeIdx != nil {
+				if t, ok := e.st.fr.regs[li.rangeIdx].(Term); ok {
+					return TV{T: Add(t, IntLit(1))}
+				}
+			}
+		}
+		trFail("%s: no such range loop (or not entered)", name)
 	case "$visited":
 		if e.loop == nil || e.loop.iterKey == "" {
 			trFail("$visited outside a range-over-map loop")
@@ -470,7 +487,8 @@ func (e *Env) member(k, m TV) Term {
 	if m.Go != nil {
 		if mt, ok := m.Go.Underlying().(*types.Map); ok {
 			dom := e.st.heap(e.vc, "dom."+typeKey(mt), ArraySort(SRef, ArraySort(e.vc.mapKeySort(mt), SBool)))
-			return Select(Select(dom, m.T), k.T)
+			// a nil map has no keys
+			return And(Not(Eq(m.T, tNull)), Select(Select(dom, m.T), k.T))
 		}
 	}
 	if _, _, ok := arrayParts(m.T.Sort); ok {
